@@ -943,3 +943,9 @@ m('C10', 'min_max_ind: index of the last node not limited (defect F28)', FIELDS,
 m('C13', 'noise_floor getter through the Dataset shorthand (defect F29)', SURV,
   "        if isinstance(self.data.attrs['noise_floor'], str):", "        if isinstance(self.data.noise_floor, str):",
   'C13.N3.flag')
+m('C18', 'run --load: layered defaults to False (defect F31)', RUN,
+  "        layered = cfg['simulation_options'].get('layered', None)", "        layered = cfg['simulation_options'].get('layered', False)",
+  'C18.Q2.routing')
+m('C18', 'parser: cache from the file replaces terminal load/save (defect F33)', PARSER,
+  "            if 'cache' in from_terminal or key not in from_terminal:\n                files[key] = cache",
+  "            files[key] = cache", 'C18.Q4.precedence')
